@@ -150,6 +150,10 @@ def c11_rf14(run):
 def c02_rf23(run):
     rf_fold.rf23(run)
     run.min_instances('RF23', 70)
+    rf_fold.rf25(run)
+    sh = run.shadow()
+    rf_fold.rf25(sh, units=(run.control_tu('rf25_control.c'),))
+    run.control('RF25', 'rf25_control.c', {f.func for f in sh.findings} == {'mask_bad'})
 
 
 def c01_rf18(run):
@@ -176,6 +180,8 @@ def c13_rf16(run):
     rf_proto.rf16e(run)
     run.min_instances('RF16d', 8)
     run.min_instances('RF16e', 4)
+    rf_proto.rf24(run)
+    run.min_instances('RF24', 12)
 
 
 def c14_rf16f(run):
